@@ -220,10 +220,17 @@ Proof.
     + intros s. unfold sat, csat, lit_true. cbn.
       split; [destruct (s 1%Z); discriminate|intros [H _]; now contradiction H].
   - remember (p :: ps) as pl eqn:Epl.
-    assert (Evars : cmapM (fun t => get_variable fb (t + 1) f l) pl = COk (map (fun t => gvar fb t f l) pl)).
+    assert (Evars : cmapM (fun t => if negb (applies_at fb f (t + 1)) then COk [[1%Z]; [(-1)%Z]]
+                                    else v <~ get_variable fb (t + 1) f l ;; COk [[zn v]]) pl
+                    = COk (map (fun t => [[zn (gvar fb t f l)]]) pl)).
     { clear -HF1 Hf Hl. induction pl as [|a pl IH]; [reflexivity|]. cbn [cmapM map].
-      rewrite Nat.add_1_r, (f1_get_variable fb HF1 f l a Hf Hl). cbn [cbind]. rewrite IH. reflexivity. }
-    rewrite Evars in E. cbn [cbind] in E. inversion E. subst ct. clear E.
+      rewrite (f1_applies fb HF1 f (a + 1)). cbn [negb].
+      rewrite Nat.add_1_r, (f1_get_variable fb HF1 f l a Hf Hl). cbn [cbind].
+      rewrite IH. reflexivity. }
+    rewrite Evars in E. cbn [cbind] in E.
+    assert (Econc : concat (map (fun t => [[zn (gvar fb t f l)]]) pl) = map (fun v => [zn v]) (map (fun t => gvar fb t f l) pl)).
+    { clear. induction pl as [|a pl IH]; [reflexivity|]. cbn [map concat app]. now rewrite IH. }
+    rewrite Econc in E. inversion E. subst ct. clear E.
     cbn [ct_fresh ct_clauses ct_requests]. exists (fun s => s).
     assert (Hv : Forall (fun v => 0 < v /\ (zn v <= fresh - 1)%Z) (map (fun t => gvar fb t f l) pl)).
     { apply Forall_map. eapply Forall_impl; [|exact Hpb]. intros t Ht. split; [apply gvar_pos|].
